@@ -872,6 +872,16 @@ func genBlockers(count int, rng *rand.Rand, perturb int) []*scenario {
 		out = append(out, &scenario{N: 2 + rng.Intn(3), Coe: rng.Intn(2) == 0, Emit: false, Deps: deps, Out: outs,
 			ExtCancel: ext, Block: 0, Perturb: perturb * rng.Intn(2), Seed: rng.Int63(), Spin: rng.Intn(2)})
 	}
+	// A long queue behind a blocked worker: one worker, its only running job blocked, hundreds of
+	// independent jobs still to be enqueued when the context is cancelled from outside. The caller's
+	// remaining Enqueues and Wait must not wait for the blocked job.
+	for i := 0; i < 1+count/40; i++ {
+		n := 700 + rng.Intn(600)
+		deps := make([][]int, n)
+		outs := make([]outcome, n)
+		out = append(out, &scenario{N: 1 + i%2, Coe: i%2 == 1, Emit: false, Deps: deps, Out: outs,
+			ExtCancel: 1 + rng.Intn(3), Block: 0, Perturb: 0, Seed: rng.Int63(), Spin: 0})
+	}
 	return out
 }
 
@@ -1167,25 +1177,43 @@ func runBigFan(fan, n int) (fails []string) {
 	sched := (scheduler.Config{Concurrency: n}).New()
 	bg := context.Background()
 	release := make(chan struct{})
+	var once sync.Once
 	var ended int64
-	deps := make([]*scheduler.ScheduledJob, fan)
-	for i := 0; i < fan; i++ {
-		deps[i] = sched.Enqueue(bg, scheduler.Job{Run: func(context.Context) error {
-			<-release
-			atomic.AddInt64(&ended, 1)
-			return nil
-		}})
-	}
 	var starts int32
 	var seenAtStart int64 = -1
-	sched.Enqueue(bg, scheduler.Job{Dependencies: deps, Run: func(context.Context) error {
-		if atomic.AddInt32(&starts, 1) == 1 {
-			atomic.StoreInt64(&seenAtStart, atomic.LoadInt64(&ended))
+	enqueued := make(chan struct{})
+	go func() {
+		deps := make([]*scheduler.ScheduledJob, fan)
+		for i := 0; i < fan; i++ {
+			deps[i] = sched.Enqueue(bg, scheduler.Job{Run: func(context.Context) error {
+				<-release
+				atomic.AddInt64(&ended, 1)
+				return nil
+			}})
 		}
-		return nil
-	}})
-	time.Sleep(20 * time.Millisecond) // let the loop register the dependent while its dependencies are unfinished
-	close(release)
+		sched.Enqueue(bg, scheduler.Job{Dependencies: deps, Run: func(context.Context) error {
+			if atomic.AddInt32(&starts, 1) == 1 {
+				atomic.StoreInt64(&seenAtStart, atomic.LoadInt64(&ended))
+			}
+			return nil
+		}})
+		close(enqueued)
+	}()
+	paced := true
+	select {
+	case <-enqueued:
+		time.Sleep(20 * time.Millisecond) // let the loop register the dependent while its dependencies are unfinished
+	case <-time.After(20 * time.Second):
+		// Enqueue is waiting for running jobs (it does not on the unchanged scheduler): let them go
+		paced = false
+	}
+	once.Do(func() { close(release) })
+	select {
+	case <-enqueued:
+	case <-time.After(60 * time.Second):
+		atomic.AddInt32(&hangs, 1)
+		return []string{fmt.Sprintf("fan-in %d: Enqueue did not return within 60s although every job body had been released", fan)}
+	}
 	done := make(chan error, 1)
 	go func() { done <- sched.Wait(bg) }()
 	select {
@@ -1201,7 +1229,7 @@ func runBigFan(fan, n int) (fails []string) {
 		fails = append(fails, fmt.Sprintf("fan-in %d: the dependent job started %d times", fan, st))
 	}
 	if seen := atomic.LoadInt64(&seenAtStart); seen != int64(fan) {
-		fails = append(fails, fmt.Sprintf("fan-in %d: the dependent job started when only %d of its dependencies had ended", fan, seen))
+		fails = append(fails, fmt.Sprintf("fan-in %d: the dependent job started when only %d of its dependencies had ended (paced=%v)", fan, seen, paced))
 	}
 	return fails
 }
